@@ -6,7 +6,9 @@
 //	                          interval monitor) go to tracefile, one line per concurrency op
 //	mutex gen <n>             seeded generator of op lines (VERIF_SEED)
 //	mutex oracle <n>          the property's clauses evaluated on the implementation alone
-//	mutex facts <repo>        go/ast synchronisation skeleton of Lock/Unlock/runGo as Lean data
+//	mutex facts <repo>        go/ast synchronisation skeleton of Lock/Unlock/runGo/waitForTasks as Lean data
+//	mutex gentasks <n>        task cases (tasks.go): the adversarial family, then n random ones
+//	mutex tasksoracle <n>     task cases evaluated on the implementation alone
 //
 // Line protocol: see /verif/lean/Driver/Mutex.lean.  Every concurrency case runs against a fresh
 // SharedMutex; holders are goroutines; the build tag `verif` turns
@@ -229,6 +231,10 @@ func installHook() {
 		if point != "mutex.acquire" {
 			return
 		}
+		if tc, _ := currentT.Load().(*tcase); tc != nil {
+			tc.hook()
+			return
+		}
 		c, _ := current.Load().(*caseRT)
 		if c == nil {
 			return
@@ -261,6 +267,7 @@ func newCase(maps [][]row) *caseRT {
 			}
 		}
 	}
+	currentT.Store((*tcase)(nil))
 	current.Store(c)
 	return c
 }
@@ -714,6 +721,26 @@ func runOp(line string) (res string, trace string) {
 			return "bad-op", ""
 		}
 		return opLocks(hx.MustDec(head[1]), hx.MustDec(head[2]), hx.MustDec(head[3])), ""
+	case "tasks":
+		if len(head) != 2 || len(parts) != 2 {
+			return "bad-op", ""
+		}
+		specs, err := parseTaskSpecs(head[1])
+		if err != nil {
+			return "bad-op", ""
+		}
+		ctl := strings.Fields(parts[1])
+		switch {
+		case len(ctl) == 1 && ctl[0] == "adv":
+			return opTasks(specs, "adv", 0)
+		case len(ctl) == 2 && ctl[0] == "rnd":
+			seed, err := strconv.ParseUint(ctl[1], 10, 64)
+			if err != nil {
+				return "bad-op", ""
+			}
+			return opTasks(specs, "rnd", seed)
+		}
+		return "bad-op", ""
 	case "sched", "stress", "overlap", "rounds":
 		if len(head) != 2 {
 			return "bad-op", ""
@@ -1021,7 +1048,7 @@ func oracle(n int) {
 
 var factCalls = map[string]bool{"Lock": true, "RLock": true, "Unlock": true, "RUnlock": true, "SliceStable": true,
 	"Slice": true, "Stable": true, "Sort": true, "Strings": true, "get": true, "Yield": true, "Run": true,
-	"waitForTasks": true, "Wait": true, "Close": true}
+	"waitForTasks": true, "Wait": true, "Close": true, "Get": true, "Errors": true}
 
 type skel struct{ out []string }
 
@@ -1161,6 +1188,7 @@ func facts(repo string) {
 		{"sharedMutexLock", base + "commonm/commservices/mutex/mutex.go", "*SharedMutex", "Lock"},
 		{"unlockHandlerUnlock", base + "commonm/commservices/mutex/mutex_hander.go", "*unlockHandler", "Unlock"},
 		{"runnerRunGo", base + "pipelinem/pipservices/runner/runner.go", "*Runner", "runGo"},
+		{"runnerWaitForTasks", base + "pipelinem/pipservices/runner/runner.go", "*Runner", "waitForTasks"},
 	}
 	fmt.Println("/- GENERATED by `mutex facts` from the Go sources of the repository under test: the ordered")
 	fmt.Println("synchronisation-relevant statements of the functions the C15 model mirrors.  Do not edit. -/")
@@ -1178,7 +1206,7 @@ func facts(repo string) {
 
 func main() {
 	if len(os.Args) < 2 {
-		fmt.Fprintln(os.Stderr, "usage: mutex drive [tracefile] | gen <n> | oracle <n>")
+		fmt.Fprintln(os.Stderr, "usage: mutex drive [tracefile] | gen <n> | oracle <n> | facts <repo> | gentasks <n> | tasksoracle <n>")
 		os.Exit(3)
 	}
 	switch os.Args[1] {
@@ -1196,6 +1224,21 @@ func main() {
 		oracle(n)
 	case "facts":
 		facts(os.Args[2])
+	case "gentasks":
+		// the adversarial family, then n random task cases
+		n, _ := strconv.Atoi(os.Args[2])
+		r := hx.NewRand(hx.SeedFromEnv()*2654435761 + 97)
+		out := bufio.NewWriter(os.Stdout)
+		for k := 0; k < advVariants; k++ {
+			fmt.Fprintln(out, genTasksAdv(k))
+		}
+		for i := 0; i < n; i++ {
+			fmt.Fprintln(out, genTasksRnd(r))
+		}
+		out.Flush()
+	case "tasksoracle":
+		n, _ := strconv.Atoi(os.Args[2])
+		tasksOracle(n)
 	default:
 		os.Exit(3)
 	}
